@@ -180,7 +180,17 @@ int main (int argc, char **argv) {
 	while (fgets (line, sizeof line, in)) {
 		char c = line[0], *cmd; size_t n = strlen (line);
 		if (n && line[n - 1] == '\n') line[n - 1] = 0;
-		if (!strncmp (line, "epoch", 5)) { vt_emit ("{\"e\":\"Epoch\"}"); continue; }
+		if (!strncmp (line, "epoch", 5)) {
+			/* a process that is still blocked inside a call at the end of a scenario is removed the hard way (a crash the P-spec allows anywhere) */
+			for (p = 1; p <= nch; p++) if (ch[p].busy) {
+				int st, r = pump (p, 300, dline);
+				if (r == 'D') { emit_done (p, ch[p].pend, dline); ch[p].busy = 0; continue; }
+				kill (ch[p].pid, SIGKILL); waitpid (ch[p].pid, &st, 0); close (ch[p].to); close (ch[p].from);
+				vt_emit ("{\"e\":\"crash\",\"p\":%d}", p);
+				spawn (p);
+			}
+			vt_emit ("{\"e\":\"Epoch\"}"); continue;
+		}
 		if (!strncmp (line, "obs", 3)) {
 			int i; VT ("{\"e\":\"obs\",\"shm\":[");
 			for (i = 0; i < nkeys; i++) { char path[128]; snprintf (path, sizeof path, "/dev/shm%s", keys[i]); VT ("%s[\"%s\",%d]", i ? "," : "", keys[i], access (path, F_OK) == 0); }
@@ -191,6 +201,13 @@ int main (int argc, char **argv) {
 		if (n < 3 || line[1] != ' ') continue;
 		p = atoi (line + 2); cmd = strchr (line + 2, ' '); cmd = cmd ? cmd + 1 : (char *) "";
 		if (p < 1 || p > nch) continue;
+		if ((c == 'P' || c == 'A' || c == 'B') && ch[p].busy) {
+			/* the (single-threaded) process is still inside an earlier call: its completion belongs to that call.  Collect it first;
+			 * if it does not come the process is blocked and cannot take this command - the command is skipped, never misattributed. */
+			int r = pump (p, 10000, dline);
+			if (r == 'D') { emit_done (p, ch[p].pend, dline); ch[p].busy = 0; }
+			else { vt_emit ("{\"e\":\"Stuck\",\"p\":%d,\"cmd\":\"%s\"}", p, ch[p].pend); continue; }
+		}
 		if (c == 'P') {
 			int r;
 			emit_call (p, cmd); send_ (p, cmd);
